@@ -29,7 +29,7 @@ MANIFEST_ENTRY = dict(
          'output with the listed relative phases; list -- one result per input, in the order of the inputs.',
     note='NOT decided: Haar-random / Clifford / near-identity unitaries, GHZ / W / random states, and the distance budget for any target '
          'outside the exact domain (needs real-number linear algebra as the oracle).  Single states are compared up to a global phase; a '
-         'state system up to one common phase (the weaker reading).  A case that does not finish within its wall-clock bound is a note, not '
+         'state system up to one common phase (the weaker reading).  A case that does not finish within its CPU-time bound is a note, not '
          'a verdict.  A call that compile() refuses in its own argument checks (documented ValueError / TypeError) is not a violation; a '
          'compilation that was accepted and then raised is (clause compile-raised).  Every run ends with an oracle self-test: corrupted '
          'copies of accepted observations (column moved, phase changed, outside the budget, mapping out of range / repeated, results '
@@ -119,7 +119,7 @@ def build_cases(ctx: Ctx):
         c['sched'] = rng.randrange(1 << 20)
         c['cseed'] = rng.randrange(1 << 16)
         c['trace'] = False
-        c['timeout'] = 240 if c['level'] == 1 else 420 if ctx.quick else 600
+        c['timeout'] = 150 if c['level'] == 1 else 300 if ctx.quick else 500        # CPU seconds (see run_cases)
     return cases
 
 
@@ -150,7 +150,7 @@ def run(ctx: Ctx) -> Outcome:
     for c, r in zip(cases, results):
         if r['status'] == 'timeout':
             timeouts += 1
-            out.notes.append('NOTE property=C03 case %s (%s radix %d n=%d level=%d) did not finish within %d s: undecided'
+            out.notes.append('NOTE property=C03 case %s (%s radix %d n=%d level=%d) did not finish within %d CPU seconds: undecided'
                              % (c.get('id'), c['kind'], c['radix'], c['n'], c['level'], c['timeout']))
             continue
         if r['status'] == 'harness-error':
